@@ -59,6 +59,26 @@ func TestVerifC01(t *testing.T) {
 	if vthorough() {
 		per = 300
 	}
+	var stable stableChk
+	{
+		// a message beyond 64 KiB made of small parameters
+		c, v := s.bigReport(rng, 3900)
+		p := s.newGo(c)
+		s.toGo(c, v, p.Elem())
+		if b, res := vmarshal(p); res == "ok" {
+			o.line("enc "+c.Name+" "+v.String(), "ok x"+vhex(b))
+			o.line("dec "+c.Name+" x"+vhex(b), func() string {
+				p2 := s.newGo(c)
+				if r := vunmarshal(p2, b); r != "ok" {
+					return r
+				}
+				return "ok " + s.fromGo(c, p2.Elem()).String()
+			}())
+		} else {
+			o.line("enc "+c.Name+" "+v.String(), res)
+		}
+		o.line("rt "+c.Name+" "+v.String(), s.roundTrip(c, v))
+	}
 	for _, c := range s.all {
 		for i := 0; i < per; i++ {
 			g := &vgen{s: s, r: rng, big: vthorough() && i%4 == 0, budget: 60}
@@ -74,6 +94,7 @@ func TestVerifC01(t *testing.T) {
 			obs := res
 			if res == "ok" {
 				obs = "ok x" + vhex(b)
+				stable.note(o, b)
 			}
 			o.line("enc "+c.Name+" "+txt, obs)
 			if res == "ok" {
